@@ -56,6 +56,7 @@ type Exec struct {
 	itemOf        map[*Object]itemRef
 	entryKV       map[*Object][2]*Term
 	repoSentinel  map[int64]bool
+	sentinelPkg   map[int64]string // module of an external package-level error variable
 	ifaceN        int64
 	subCollect    *[]Value
 }
@@ -73,7 +74,7 @@ func NewExec(prog *ssa.Program, specs *SpecDB, cfg Config) *Exec {
 	return &Exec{Prog: prog, G: NewGen(), Specs: specs, Cfg: cfg, loops: map[*ssa.Function]*LoopInfo{},
 		globals: map[*ssa.Global]*Object{}, textOrd: map[*ssa.Function]map[ssa.Instruction]string{},
 		Notes: map[string]int{}, Unsupported: map[string]int{}, identObj: map[string]*Object{}, walkerOf: map[*Object]*Object{}, walkerSig: map[*Object]*Object{},
-		txnDB: map[*Object]*Object{}, itemOf: map[*Object]itemRef{}, entryKV: map[*Object][2]*Term{}, repoSentinel: map[int64]bool{}}
+		txnDB: map[*Object]*Object{}, itemOf: map[*Object]itemRef{}, entryKV: map[*Object][2]*Term{}, repoSentinel: map[int64]bool{}, sentinelPkg: map[int64]string{}}
 }
 
 func (ex *Exec) isInRepo(f *ssa.Function) bool {
@@ -173,6 +174,8 @@ func (ex *Exec) globalObj(g *ssa.Global) *Object {
 		ex.G.errIDs[g.String()] = id
 		if g.Pkg != nil && strings.HasPrefix(g.Pkg.Pkg.Path(), modulePrefix) {
 			ex.repoSentinel[id] = true
+		} else if g.Pkg != nil {
+			ex.sentinelPkg[id] = moduleOf(g.Pkg.Pkg.Path() + ".x")
 		}
 		o.Const = true
 		o.initFn = func() Value { return &IfaceV{ID: IntC(id)} }
